@@ -141,6 +141,13 @@ def check_tree(mt_json, order):
                             'what': 'delete_terminal leaves a tree the navigation functions cannot work on'})
                 break
             compare_live(t, exp, case, out, 'after deleting the %s token with trees.delete_terminal' % which)
+        # ... and on a tree that a transformation restructured in place (unary chains collapsed): the
+        # answers that follow parent links must agree with those that follow child lists
+        if not out and order in (None, 'rev'):
+            from trees import transform
+            t2 = transform.collapse_unary_chains(build(mt, child_order=order))
+            if t2.children:
+                compare_live(t2, extract(t2), case, out, 'after collapse_unary_chains')
     except Exception as e:  # library crashed on a well-formed tree
         out.append({'kind': 'exception', 'where': 'trees.*', 'case': case,
                     'detail': '%s: %s on %s' % (type(e).__name__, e, model.mt_str(mt.root)),
